@@ -638,7 +638,9 @@ theorem resolveCalls_setMax (cfg : Config) (n : Int) :
   intro calls
   induction calls with
   | nil => rfl
-  | cons c cs ih => simp only [resolveCalls, ih]
+  | cons c cs ih =>
+    have ht : ({ cfg with maxStep := n } : Config).toolFor c.name = cfg.toolFor c.name := rfl
+    simp only [resolveCalls, ih, ht]
 
 theorem runTools_setMax (cfg : Config) (n : Int) (m : Msg) :
     runTools { cfg with maxStep := n } m = runTools cfg m := by
@@ -955,7 +957,7 @@ theorem rounds_rel (cfg : Config) (dec : Reply → Bool) {s1 s2 : List Reply}
 
 /-- tool message produced for one call -/
 def AnswerOf (cfg : Config) (c : ToolCall) (m : Msg) : Prop :=
-  ∃ f out, cfg.tools c.name = some f ∧ f c.args = .ok out ∧ m = toolMessage out c.id
+  ∃ f out, cfg.toolFor c.name = some f ∧ f c.args = .ok out ∧ m = toolMessage out c.id
 
 /-- call-by-call: the i-th tool message answers the i-th call -/
 inductive Answers (cfg : Config) : List ToolCall → List Msg → Prop
